@@ -152,7 +152,7 @@ def query(res, ae, watch, g, name, root, mode, rng, oracle_cache, ctx, H=None, p
             return False
     else:
         if phi is None:
-            phi = rng.choice([0.0, 1.0, 0.5, rng.random(), rng.random(), 2.0, -0.5, 0.25])
+            phi = rng.choice([0.0, 1.0, 0.5, rng.random(), rng.random(), 2.0, -0.5, 0.25, 0.009, 0.003, 0.97, 1e-4])
         if out is not None:
             out["phi"] = phi
         # "all real phi and u": include values where a shortcut could branch (0, 1, 2, -1, and phi*u == 1 exactly)
